@@ -146,7 +146,7 @@ SAFE_LABELS = [l for l in ioops.PLAIN_LABELS if ioops.keyword_cause([l]) is None
 
 def gen_data(rnd, style):
     import props.C01 as C01
-    g = C01.despace(ioops.gen_tg(rnd, "simple" if style != "exp" else "full", labels=SAFE_LABELS + ["", ""], names=["w", "p", "t 1", "é", "n\"q"] + ioops.BLANK_NAMES + ioops.NL_NAMES), rnd)
+    g = C01.despace(ioops.gen_tg(rnd, "simple" if style != "exp" else "full", labels=SAFE_LABELS + ["", ""], names=["w", "p", "t 1", "é", "n\"q"] + ioops.BLANK_NAMES + ioops.NL_NAMES + ioops.ROW_NAMES), rnd)
     d = {"lo": g["lo"], "hi": g["hi"], "tiers": g["tiers"]}
     if style == "exp":
         # make sure some numerals really use an exponent
@@ -199,6 +199,15 @@ def corpus():
     for t in ['name = "a\nb" \n', 'name = "a\nb"x\n', 'name = "a" \nxmin = 0 \n', 'name = "a\n"\n"\n', 'name = "a\nb']:
         for da in (True, False):
             yield {"op": "u_text", "s": t, "kw": "name", "dotall": da}
+            yield {"op": "u_textrest", "s": t, "kw": "name", "dotall": da}
+    # A33 (fixed): a line of a multi-line name that reads like the tier's span row, in every layout; the name row with its rest
+    d7 = {"lo": 0.0, "hi": 2.0, "tiers": [{"k": "P", "name": "xmin = 1\nb", "es": [[0.5, "p"]], "lo": 0.0, "hi": 2.0},
+                                        {"k": "I", "name": "a\n xmax= -2.5 \nz", "es": [[0.5, 1.0, "x"]], "lo": 0.0, "hi": 2.0}]}
+    for layout in LAYOUTS:
+        yield {"op": "open", "data": d7, "layout": layout, "style": "plain", "enc": "utf-8", "newline": "\n", "iei": True, "dup": "error", "negzero": False}
+    for t in ['name = "xmin = 1\nb" \n    xmin = 0 \n    xmax = 2 \n', 'name = "a" \n\n  \nxmin = 0', 'name = "a"', 'name = "a" x\nname= "b"\t\n "\n',
+              'name = ""\n', 'xname = "q""" \n"']:
+        yield {"op": "u_textrest", "s": t, "kw": "name", "dotall": True}
     for t in ['" a " \n', '"\ta\n "\nx', '"  ""q"" "\n', '" "\n', '""\n']:
         for st in (True, False):
             yield {"op": "u_fetchtext", "s": t, "i": 0, "anyerr": False, "strip": st}
@@ -229,7 +238,7 @@ def unit_cases(rnd, n):
         if k < 0.3:
             yield {"op": "u_num", "s": s, "kw": rnd.choice(["xmin", "xmax", "number"]), "neg": rnd.random() < 0.5, "ascii": True}
         elif k < 0.6:
-            yield {"op": "u_text", "s": s, "kw": rnd.choice(["text", "name", "mark"]), "dotall": rnd.random() < 0.6}
+            yield {"op": rnd.choice(["u_text", "u_text", "u_textrest"]), "s": s, "kw": rnd.choice(["text", "name", "mark"]), "dotall": rnd.random() < 0.6}
         elif k < 0.7:
             yield {"op": "u_split", "s": s, "kw": rnd.choice(["item", "intervals"])}
         elif k < 0.8:
